@@ -24,7 +24,7 @@ if VERIF not in sys.path:
     sys.path.insert(0, VERIF)
 
 from mpsim import loader  # noqa: E402
-from mpsim.core import HarnessError, SimAbort, canon, derive_rng, sha  # noqa: E402
+from mpsim.core import HarnessError, SimAbort, canon, derive_rng, run_forked, sha  # noqa: E402
 
 ENGINE_OF = {
     "C01": "evalsim", "C14": "evalsim",
@@ -65,6 +65,22 @@ def _worker_init(scratch, prop):
     _ENGINE = eng
     if hasattr(eng, "worker_init"):
         eng.worker_init(scratch)
+    if not getattr(eng, "ISOLATES", False) and not os.environ.get("MPSIM_NOFORK"):
+        # Every simulated run is a forked child of this process: warm up imports, PLY tables and regex caches here, once,
+        # with fixed scenarios (identical in every worker and in a replay process), so that children do not pay for it.
+        for i in range(3):
+            try:
+                sc = eng.generate(prop, derive_rng(0, prop, i, "warmup"), i, "quick")
+                eng.execute(json.loads(json.dumps(sc)))
+            except BaseException:  # noqa
+                pass
+
+
+def execute_isolated(eng, sc):
+    """One simulated run = one forked child of the initialised worker (engines that fork themselves excepted)."""
+    if getattr(eng, "ISOLATES", False) or os.environ.get("MPSIM_NOFORK"):
+        return eng.execute(sc)
+    return run_forked(eng.execute, sc)
 
 
 def run_one(eng, prop, tier, master, index):
@@ -73,7 +89,7 @@ def run_one(eng, prop, tier, master, index):
     sc["_seed"] = [int(master), int(index)]
     # the scenario, not the generator, is the replay format: execute exactly what a replay file would hold
     sc = json.loads(json.dumps(sc))
-    res = eng.execute(sc)
+    res = execute_isolated(eng, sc)
     return sc, res
 
 
@@ -154,7 +170,7 @@ def shrink_task(prop, scenario, sig, budget, wall):
             execs += 1
             cand = json.loads(json.dumps(cand))
             try:
-                res = eng.execute(cand)
+                res = execute_isolated(eng, cand)
             except (HarnessError, SimAbort, Exception):
                 continue
             if any(v.sig == sig for v in res.violations):
@@ -162,7 +178,7 @@ def shrink_task(prop, scenario, sig, budget, wall):
                 improved = True
                 steps += 1
                 break
-    res = eng.execute(cur)
+    res = execute_isolated(eng, cur)
     v = next((v for v in res.violations if v.sig == sig), None)
     return {"scenario": cur, "execs": execs, "steps": steps, "digest": res.log.digest(),
             "events": res.log.dump(), "violation": v.as_dict() if v else None}
@@ -462,7 +478,7 @@ def cmd_digests(args):
     tier = args.tier or "quick"
     master = int(args.seed or 0)
     _worker_init(args.scratch, prop)
-    out = digests_task(prop, tier, master, list(reversed(range(args.count))))
+    out = digests_task(prop, tier, master, list(reversed(range(args.start, args.start + args.count))))
     sys.stdout.write(json.dumps(out))
     return 0
 
@@ -479,7 +495,7 @@ def cmd_replay(args):
         atexit.register(loader.remove_scratch, scratch)
     _worker_init(scratch, prop)
     eng = _ENGINE
-    res = eng.execute(rep["scenario"])
+    res = execute_isolated(eng, rep["scenario"])
     sigs = [v.sig for v in res.violations]
     digest = res.log.digest()
     same_sig = rep["signature"] in sigs
@@ -511,8 +527,13 @@ def main(argv=None):
     ap.add_argument("--replay")
     ap.add_argument("--digests")
     ap.add_argument("--count", type=int, default=DET_SLICE)
+    ap.add_argument("--start", type=int, default=0)
     ap.add_argument("--scratch")
     ap.add_argument("--quiet", action="store_true")
+    if (argv if argv is not None else sys.argv[1:])[:1] == ["selftest"]:
+        reexec_with_fixed_hashseed()
+        from mpsim import selftest
+        return selftest.main((argv if argv is not None else sys.argv[1:])[1:])
     args = ap.parse_args(argv)
     reexec_with_fixed_hashseed()
     if args.digests:
